@@ -51,8 +51,9 @@ KindOK(p) == CASE p.typ = DATA     -> p.off < LoMod
 \* a parsed line: the fields and the verdict wf (well-formed record)
 NoParse == [ok |-> FALSE, count |-> 0, off |-> 0, typ |-> -1, data |-> <<>>, wf |-> FALSE]
 Parse(line) ==
-    IF Len(line) >= 11 /\ line[1] = 58 /\ IsHexPairs(line, 2)
-    THEN LET b == PairsToBytes(line, 2)
+    LET dg == Digits(line, 2) IN
+    IF Len(line) >= 11 /\ line[1] = 58 /\ AreHexPairs(dg)
+    THEN LET b == DigitsToBytes(dg)
              p == [count |-> b[1], off |-> 256 * b[2] + b[3], typ |-> b[4],
                    data |-> SubSeq(b, 5, Len(b) - 1), bytes |-> b]
          IN [ok |-> TRUE, count |-> p.count, off |-> p.off, typ |-> p.typ, data |-> p.data,
@@ -79,6 +80,8 @@ Pieces(ctx, p) ==
          ELSE LET n1 == 65536 - p.off                       \* the offset wraps inside the segment
               IN <<Reg(SegAddr(ctx.upper, p.off), SubSeq(p.data, 1, n1)),
                    Reg(SegAddr(ctx.upper, 0), SubSeq(p.data, n1 + 1, n))>>
+
+Parsed(lines) == [k \in 1..Len(lines) |-> Parse(lines[k])]
 
 \* ------------------------------------------------------ streaming reader
 NoStart == [has |-> FALSE, hi |-> 0, lo |-> 0]
@@ -115,9 +118,10 @@ RdStep(rd, p, exp) ==
            [] p.typ = EXTSEG   -> RdExtSeg(rd, p)
            [] p.typ = STARTLIN -> RdStartLin(rd, p)
            [] p.typ = STARTSEG -> RdStartSeg(rd, p)
+\* the whole file at once; P is the sequence of parsed lines
 RECURSIVE RunFrom(_, _, _, _)
-RunFrom(rd, lines, k, exp) == IF k > Len(lines) THEN rd ELSE RunFrom(RdStep(rd, Parse(lines[k]), exp), lines, k + 1, exp)
-Run(lines, exp) == RunFrom(RdInit, lines, 1, exp)
+RunFrom(rd, P, k, exp) == IF k > Len(P) THEN rd ELSE RunFrom(RdStep(rd, P[k], exp), P, k + 1, exp)
+RunP(P, exp) == RunFrom(RdInit, P, 1, exp)
 
 \* verdicts on the final reader state
 Clean(rd) == rd.nbad = 0 /\ rd.nforeign = 0 /\ rd.ndup = 0 /\ rd.nafter = 0
@@ -128,7 +132,6 @@ StartIs(st, s) == IF s.hi = 0 /\ s.lo = 0 THEN (~st.has \/ (st.hi = 0 /\ st.lo =
 Accepts(rd, exp, s) == Clean(rd) /\ rd.eof /\ CoveredExactly(rd, exp) /\ StartIs(rd.start, s)
 
 \* --------------------------------------------------- declarative decoder
-Parsed(lines) == [k \in 1..Len(lines) |-> Parse(lines[k])]
 SetMax(S) == CHOOSE j \in S : \A m \in S : m <= j
 SetMin(S) == CHOOSE j \in S : \A m \in S : j <= m
 EofAt(P) == LET S == {k \in 1..Len(P) : WellFormed(P[k]) /\ P[k].typ = EOFR}
